@@ -137,19 +137,19 @@ func HarnessC09Epoch(a []int) {
 	conn.channel, conn.seqNumber = c0, s0
 	conn.control = knxnet.HostInfo{Protocol: knxnet.UDP4}
 	newCh := nondetU8()
-	verifAssume(newCh != c0 && newCh+1 != c0)
 	badStatus := knxnet.ErrCode(nondetU8())
 	verifAssume(badStatus != 0 && badStatus != knxnet.ErrNoMoreConnections && badStatus != knxnet.ErrNoMoreUniqueConnections)
 	frames := make(chan knxnet.ServicePackable, 64)
 	sock.onSend = func(p knxnet.ServicePackable) { frames <- p }
 	hbAnswered := false
 	busySent := false
+	epoch2 := false // the gateway has accepted a reconnect (the new channel may equal the old one)
 	go func() { // gateway
 		verifDaemon()
 		for f := range frames {
 			switch r := f.(type) {
 			case *knxnet.ConnStateReq:
-				if r.Channel == newCh && len(sock.log) > 0 && hbAnswered {
+				if epoch2 {
 					sock.in <- &knxnet.ConnStateRes{Channel: r.Channel, Status: 0}
 					continue
 				}
@@ -157,9 +157,7 @@ func HarnessC09Epoch(a []int) {
 				case 0:
 					sock.in <- &knxnet.ConnStateRes{Channel: r.Channel, Status: 0}
 				case 2:
-					if !hbAnswered {
-						sock.in <- &knxnet.ConnStateRes{Channel: r.Channel, Status: badStatus}
-					}
+					sock.in <- &knxnet.ConnStateRes{Channel: r.Channel, Status: badStatus}
 				case 3:
 					if !hbAnswered {
 						sock.in <- &knxnet.ConnStateRes{Channel: r.Channel + 1, Status: 0}
@@ -173,12 +171,14 @@ func HarnessC09Epoch(a []int) {
 			case *knxnet.ConnReq:
 				switch rcMode {
 				case 0:
+					epoch2 = true
 					sock.in <- &knxnet.ConnRes{Channel: newCh, Status: 0}
 				case 1:
 					if !busySent {
 						busySent = true
 						sock.in <- &knxnet.ConnRes{Channel: newCh + 1, Status: knxnet.ErrNoMoreConnections}
 					} else {
+						epoch2 = true
 						sock.in <- &knxnet.ConnRes{Channel: newCh, Status: 0}
 					}
 				case 2:
@@ -205,6 +205,10 @@ func HarnessC09Epoch(a []int) {
 	for i, f := range sock.log {
 		switch r := f.(type) {
 		case *knxnet.ConnReq:
+			if reconnects == 0 {
+				// the reconnect follows the failed heartbeat at once: at the latest when its response timeout expires
+				verifAssert("C09.epoch.reconnect_prompt", sock.stamps[i] <= hb+timeout)
+			}
 			reconnects++
 		case *knxnet.ConnStateReq:
 			if reconnects == 0 {
